@@ -3,7 +3,7 @@ import vf, gen, spec
 
 ID = 'C06'
 FLAVORS = ['default']
-RULE = ('scenarios of 1..3 messages (one per input call) of 1..6 units over a table of queries and commands whose scripts emit 0..4 result items of every result type '
+RULE = ('scenarios of 1..3 messages (one per input call; in a quarter of them the last one arrives without terminator and is executed by a zero-length call) of 1..6 units over a table of queries and commands whose scripts emit 0..4 result items of every result type '
         '(integers in all bases, booleans, text, characters, blocks, streamed blocks completed in 1..3 data calls), push errors, and succeed or fail; '
         'non-trivial: at least one unit responded and at least two units ran; distinct = distinct scenario lines.')
 MODELLED = 'writeDelimiter/writeNewLine/processCommand/SCPI_Parse and every SCPI_Result* used here are modelled in ParserModel (item/delimiter/result_*); float results and arrays are in C16/C17'
@@ -84,7 +84,11 @@ def make(R):
                 h = R.choice([b"@", b"A? 1 2", b"$", b"B? (", b"N? 'x"])      # a unit that is not well formed: no handler, -1xx, no output
             units.append(R.choice([b'', b' ']) + h)
         msgs.append(b';'.join(units) + R.choice([b'\n', b'\r\n']))
-    return gen.scenario(256, 16, table, [('I', m) for m in msgs]), expect
+    ins = [('I', m) for m in msgs]
+    if R.random() < 0.25:
+        # the last message arrives without its terminator and is executed by a zero-length input call
+        ins = ins[:-1] + [('I', msgs[-1].rstrip(b'\r\n')), ('I', b'')]
+    return gen.scenario(256, 16, table, ins), expect
 
 
 def project(case, out):
